@@ -3,6 +3,7 @@ import Ucan.Driver.Glob
 import Ucan.Driver.Selector
 import Ucan.Driver.Policy
 import Ucan.Driver.Chain
+import Ucan.Driver.Cbor
 /-!
 Line-protocol driver: one case per input line, one canonical answer per output line.
 Imports models and specs only (core Lean), never lemmas or property files.
@@ -19,6 +20,8 @@ def dispatch (toks : List String) : String :=
       else if t.startsWith "sel." then runSelector toks
       else if t.startsWith "pol." then runPolicy toks
       else if t.startsWith "chain." then runChain toks
+      else if t.startsWith "cbor." || t.startsWith "sealed." then runCbor toks
+      else if t.startsWith "go." then some "ok"   -- Go-side oracle checks: the model has nothing to add
       else none
   match r with
   | some s => s
